@@ -42,6 +42,8 @@ var ModSeeds = []string{
 	"module example.com/m\n\ngo 1.20\n\nrequire (\n\ta.com/x v1.0.0 // s1\n\n\t// b2\n\tb.com/y v1.1.0 // s2\n\n\t// b3\n\t// b3b\n\ta.com/x/v2 v2.0.0 // s3\n)\n\nexclude (\n\ta.com/x v1.0.0 // s4\n\n\t// b5\n\ta.com/x v1.1.0 // s5\n)\n",
 	// 19: indirect markers spelled without the usual single space (all recognised by the parser)
 	"module example.com/m\n\ngo 1.20\n\nrequire (\n\ta.com/x v1.0.0 //indirect; s1\n\tb.com/y v1.0.0 //\tindirect;\ts2\n\ta.com/x/v2 v2.0.0 //  indirect\n)\n",
+	// 20: the module directive in block form
+	"module (\n\texample.com/m // s0\n)\n\nrequire a.com/x v1.0.0 // s1\n",
 	// 17: duplicates spread over single lines and one-line or empty blocks (a sort removes whole blocks)
 	"module example.com/m\n\ngo 1.20\n\nexclude a.com/x v1.0.0\n\nexclude (\n\ta.com/x v1.0.0\n)\n\nexclude a.com/x v1.0.0 // s1\n\nreplace a.com/x => ../x1\n\nreplace (\n\ta.com/x => ../x2\n)\n\nreplace a.com/x => ../x3 // s2\n",
 	// 18: the same with empty blocks in between and tools
